@@ -37,6 +37,8 @@ func register(s *Spec) {
 	Specs[s.Prop] = s
 }
 
+var saReal, saStub []string
+
 var sbReal = []string{"pkg/board (Board, Position, ZobristTable, move generation)", "pkg/board/fen"}
 var sbStub = []string{"none: S-B drives the real types directly; the reference side is verif/sim/rules (mailbox rules, game-as-list)"}
 
@@ -75,8 +77,8 @@ func init() {
 		Real: []string{"pkg/search (AlphaBeta, Quiescence, Minimax, table)", "cmd/sargon/sargon (OnePlyIfChecked)", "pkg/board", "seekerror/stdlib contextx.IsCancelled"}, Stub: []string{"context.Context replaced by a counting context whose Done() closes at the n-th call (the cancellation seam); harness-supplied evaluator/exploration; recording wrapper around the real table"},
 		Assumptions: []string{"cancellation is observed only through ctx.Done() polls (true for contextx.IsCancelled)", "follow-up comparison only where no repetition/fifty-move draw can arise in the tree and the root is not already drawn", "the S-A part (Handle.Halt, stop, timers reaching the search through a helper goroutine) is exercised by C15/C16/C04"},
 		Run:         sb.SearchSessionC12})
-	saReal := []string{"pkg/engine/uci (Driver)", "pkg/engine (Engine)", "pkg/search/searchctl (Iterative, TimeControl)", "pkg/search, pkg/eval, pkg/board", "cmd/{turochamp,sargon,bernstein} evaluators, move filters and books", "seekerror/stdlib iox/contextx", "time (testing/synctest fake clock)"}
-	saStub := []string{"the four main() functions (their ~10-line engine wiring is repeated in verif/sim/sa/engines.go; morlock's 64 MB default table replaced by 1 MB)", "stdin/stdout line pumps replaced by simulator channels", "every leaf evaluator wrapped in the gate (inner evaluator is the real one)", "Book wrapped to sort its answer (map iteration order)", "glog output discarded"}
+	saReal = []string{"pkg/engine/uci (Driver)", "pkg/engine (Engine)", "pkg/search/searchctl (Iterative, TimeControl)", "pkg/search, pkg/eval, pkg/board", "cmd/{turochamp,sargon,bernstein} evaluators, move filters and books", "seekerror/stdlib iox/contextx", "time (testing/synctest fake clock)"}
+	saStub = []string{"the four main() functions (their ~10-line engine wiring is repeated in verif/sim/sa/engines.go; morlock's 64 MB default table replaced by 1 MB)", "stdin/stdout line pumps replaced by simulator channels", "every leaf evaluator wrapped in the gate (inner evaluator is the real one)", "Book wrapped to sort its answer (map iteration order)", "glog output discarded"}
 	register(&Spec{Prop: "C04", QuickRuns: 3000, Level: "exploration", NeedsBubble: true, CrashIsViolation: true,
 		Rule: "one run = one UCI session of a polite GUI against a tape-drawn engine wiring and option set inside a synctest bubble: 3..22 commands (position startpos/fen/extended/repeated/shortened, every go variant, stop, isready, setoption, ucinewgame), with the controller interleaving command delivery, search progress (gate credits), hooked task releases, clock advances and consumer stalls from the tape; an obligation tracker demands exactly one legal bestmove per go (0000 only without legal move; go infinite only after stop), and a settle phase decides liveness. Non-trivial = at least one go and >= 10 scheduling events; distinct = hash of the (task, point)/stimulus sequence",
 		Real: saReal, Stub: saStub,
